@@ -119,6 +119,7 @@ package health
 //@ func (hc *HealthClient) performSingleCheck
 //@   property C07 C20
 //@   safety
+//@   may-panic
 //@   requires hc != nil && endpoint != nil && hc.client != nil
 //@   modifies gvar doCount
 //@   ensures doCount <= old(doCount) + 1 && doCount >= old(doCount)
@@ -128,9 +129,12 @@ package health
 //@   ensures res1 != nil ==> res0.Status == "offline" || res0.Status == "unhealthy"
 //@   ensures res0.Status == "healthy" ==> res1 == nil && res0.StatusCode >= 200 && res0.StatusCode < 300
 
+// C20: whatever happens inside one probe (the transport or a response hook may even panic), Check returns: a panic
+// is recovered and reported as an offline result with an error (onpanic false: no exit by panic)
 //@ func (hc *HealthClient) Check
 //@   property C07 C08 C20
 //@   safety
+//@   onpanic false
 //@   requires hc != nil && endpoint != nil && hc.circuitBreaker != nil && hc.client != nil && ctx != nil
 //@   modifies hc.circuitBreaker.endpoints[all], circuitState.failures, circuitState.lastFailure, circuitState.lastAttempt, circuitState.isOpen, gvar doCount
 //@   records chkStatus = result.Status
@@ -160,8 +164,18 @@ package health
 //@   property C07
 //@   ensures true
 
+// C20: one endpoint's check can never take the checker's worker down: a panic inside checkEndpoint is recovered
+//@ func (c *HTTPHealthChecker) checkEndpointSafely
+//@   property C20 C07
+//@   safety
+//@   requires c != nil && endpoint != nil && c.healthClient != nil && c.healthClient.circuitBreaker != nil && c.healthClient.client != nil && ctx != nil && c.logger != nil
+//@   modifies *
+//@   onpanic false
+
 //@ func (c *HTTPHealthChecker) checkEndpoint
 //@   property C07 C03
+//@   may-panic
+//@   onpanic c.healthClient != nil && cbInv(c.healthClient.circuitBreaker)
 //@   requires c != nil && endpoint != nil && c.healthClient != nil && c.healthClient.circuitBreaker != nil && c.healthClient.client != nil && ctx != nil
 //@   modifies c.healthClient.circuitBreaker.endpoints[all], circuitState.failures, circuitState.lastFailure, circuitState.lastAttempt, circuitState.isOpen
 //@   modifies gvar doCount, gvar chkStatus, gvar chkCount, gvar spawned
